@@ -5,17 +5,27 @@ import Rtsp.Generated.Facts.Ledger
 Executable model (core Lean only) of the *request logic* and of the *resource tables* of
 gortsplib's server: server.go (`runInner`: conns, sessions, httpReadChannels), server_conn.go
 (`handleRequestInner`, `handleRequestOuter`, `handleRequestInSession`, `run` tear-down),
-server_conn_reader.go (`handleTunneling`, `readFuncStandard`, `readFuncTCP`), server_session.go
-(`handleRequestInner`, `runInner` incl. the `chRemoveConn` rule and the UDP timeout, `run`
-tear-down), server_session_media.go (`start` / `stop`: UDP client registrations), server_stream.go
-(`readerAdd` / `readerRemove` / `readerSetActive` / `readerSetInactive`).
+server_conn_reader.go (`handleTunneling`, `readFuncStandard`, `readFuncTCP`, read deadlines),
+server_session.go (`handleRequestInner`, `runInner` incl. the `chRemoveConn` rule and the UDP
+time-out, `run` tear-down), server_session_media.go (`start` / `stop`: UDP client registrations),
+server_stream.go (`readerAdd` / `readerRemove` / `readerSetActive` / `readerSetInactive`).
 
-What is abstracted: bytes are classified by the parsers (C04 / C09 / C05 models) into *input
-classes*; a request is the record `Req` of the classes the request logic looks at.  Identities
-(connections, sessions, paths, tunnel cookies) are small numbers.  One published stream (path
-class `known`), all peers share one IP address (the harness runs on loopback), handlers answer
-200 (404 for unknown paths).  Time is the three timeout events `idle`, `sessTimeout`, and the
-tunnel wait (also `idle`).  Goroutines, sockets and the Go runtime are not modelled.
+What is abstracted: bytes are classified by the parsers (C04 / C09 / C05 models; in the harness:
+gortsplib's own parsers) into *input classes*; a request is the record `Req` of the classes the
+request logic looks at.  Identities (connections, sessions, paths, tunnel cookies) are small
+numbers.  One published stream (path class `known`), all peers share one IP address (the harness
+runs on loopback), handlers answer 200 (404 for unknown paths).  Time is three events: `idle` (the
+read deadline of a connection, or the 5 s wait of a GET channel, expires), `sessTimeout` (the UDP
+stream check of a session finds it idle); each connection remembers whether the deadline its
+reader set when it last started to wait is armed (`Conn.armed`).  Goroutines, sockets and the Go
+runtime are not modelled.
+
+Structure: `decide*` compute the verdict of a request (status, error, action) and change nothing;
+`applyAction` performs the state change; `closeConn` / `closeSessSt` / `tornDown` are the
+tear-downs; `connInput` / `step` / `run` drive them.  The model follows the code after the
+repairs recorded in known-findings.txt (`fixed:` lines of C11): read deadline before the first
+bytes, RECORD undone when a media cannot be started, read deadline disabled only while recording
+over UDP and restored by PAUSE.
 -/
 namespace Rtsp.Ledger
 open Rtsp.Facts.Ledger
@@ -552,12 +562,13 @@ def rtspInput (st : State) (c : Conn) : Input → State × List Out
   | _ => closeConn st c     -- malformed, response, eof, idle, HTTP after the first message
 
 /-- The deadline a reader sets when it starts to wait for the next message: `readFuncStandard`
-sets none while the session records, `readFuncTCP` and `handleTunneling` always set one. -/
+sets none while the session records over UDP (the session's own time-out then ends the
+connection), `readFuncTCP` and `handleTunneling` always set one. -/
 def deadlineFor (st : State) (c : Conn) : Bool :=
   match c.phase with
   | .standard =>
     (match c.session.bind (findSess st) with
-     | some s => s.state != .record
+     | some s => !(s.state == .record && isUdp s)
      | none => true)
   | _ => true
 
